@@ -12,12 +12,17 @@ Independent oracles on the implementation: numpy replay of the chain from the ne
 independently written CD objective, bit-exact continuity of the parameters across batches / epochs / fit calls, StepLR law.
 Hardening round 4: feature interactions - stop request x scheduler (event grammar per entered epoch, scheduler step count and learning rate LEFT in
 the optimizer, model lrEnd/schedSteps), caller-owned option objects re-used across calls and models, positional call forms in the documented
-parameter order (model QV.CallForm.fitBind through c06.bind), user-registered basis letters."""
+parameter order (model QV.CallForm.fitBind through c06.bind), user-registered basis letters.
+Round 5 (argument forms, harness/argforms.py): epochs / pos_batch_size / neg_batch_size / k / starting_epoch and the sizes of the state are handed over
+as Python int, numpy.int64 / int32 / intp / uint8, 0-d integer numpy array or 0-d integer torch tensor, progbar / time / gpu as bool, int, numpy.bool_,
+numpy comparison result, 0-d numpy array or 0-d torch tensor - by keyword and in the positional prefix; the model's binder and every oracle are told
+the VALUES."""
 import contextlib
 import io
 
 import numpy as np
 
+from . import argforms as af
 from . import qc
 from .c03 import EPS, ORDER_PRBM, ORDER_RBM, E_prbm, E_rbm, dense_K, dict_np, fd_grad, flat, idx, rho_np
 from .c05 import Recorder
@@ -36,6 +41,8 @@ RULE = ("case = a real fit() run (state kind, n, h[, a], data with repeats and p
         "model; optimizer given as a recording SGD subclass / omitted (library default, torch.optim.SGD.step patched to record) / with optimizer_args; "
         "scheduler = counting stub or a real torch StepLR(step_size 1..2, gamma) via scheduler_args; optionally a stop request raised at epoch start / batch "
         "start / while the batch is processed / batch end / epoch end of a chosen epoch; the first j = 1..15 documented parameters given positionally; "
+        "integer options (epochs, pos/neg batch size, k, starting_epoch, state sizes) as Python / numpy / 0-d array / 0-d tensor integers and progbar / "
+        "time / gpu as bool / int / numpy.bool_ / 0-d array / 0-d tensor objects (stream `aseed` of the case); "
         "bernoulli draws scripted (faithful u<p or fair coins) and recorded) observed through compute_batch_gradients and rbm_am.gibbs_steps wrapped on the "
         "instance; every batch of every epoch is one observation: negative batch, chain start, probabilities presented, chain end states, .grad per "
         "parameter, lr, parameters before/after; per call: events, scheduler step count and learning rate left in the optimizer; non-trivial iff the run "
@@ -56,16 +63,18 @@ def user_unitary(theta, phi):
 
 def make_state(case):
     kind, n, h, a = case["kind"], case["n"], case["h"], case.get("a", 0)
+    fm = af.Forms(case.get("aseed"))   # the constructors' sizes and `gpu` in the case's argument forms (the same objects for every state of the case)
+    n, h, a, gpu = fm.i("num_visible", n), fm.i("num_hidden", h), fm.i("num_aux", a), fm.gpu()
     if kind == "pos":
-        return qc.make_positive(n, h, case["am"])
+        return qc.make_positive(n, h, case["am"], gpu=gpu)
     ud = None
     if case.get("letters"):  # basis letters the user registers next to X / Y / Z through the public `unitary_dict=` argument
         from qucumber.utils import unitaries
 
         ud = unitaries.create_dict(**{L["name"]: user_unitary(L["theta"], L["phi"]) for L in case["letters"]})
     if kind == "cplx":
-        return qc.make_complex(n, h, case["am"], case["ph"], unitary_dict=ud)
-    return qc.make_density(n, h, a, case["am"], case["ph"], unitary_dict=ud)
+        return qc.make_complex(n, h, case["am"], case["ph"], unitary_dict=ud, gpu=gpu)
+    return qc.make_density(n, h, a, case["am"], case["ph"], unitary_dict=ud, gpu=gpu)
 
 
 class CallRefused(Exception):
@@ -83,17 +92,21 @@ DOC_DEFAULT = {"progbar": False, "time": False, "optimizer_args": None, "schedul
 REFS = {"data": 10, "lr": 11, "input_bases": 12, "callbacks": 13, "optimizer": 14, "optimizer_args": 15, "scheduler": 16, "scheduler_args": 17}
 
 
-def split_call(has_bases, named, explicit, npos):
+def split_call(has_bases, named, explicit, npos, objs=None):
     """the call `fit(*pos, **kw)`: the first `npos` documented parameters positionally (those the case does not set explicitly get their
-    documented default), the remaining explicitly set ones by keyword; plus the same call on the wire for the model's binder (`c06.bind`)"""
+    documented default), the remaining explicitly set ones by keyword; plus the same call on the wire for the model's binder (`c06.bind`).
+    `objs`: name -> the OBJECT handed over for that option (argument forms: a numpy / torch integer, a truthy / falsy object); the wire
+    carries the VALUES of `named`"""
     order = DOC_ORDER[has_bases]
+    objs = objs or {}
     npos = max(1, min(npos, len(order)))
     val = lambda nm: named[nm] if nm in explicit else DOC_DEFAULT[nm]
+    obj = lambda nm: objs[nm] if (nm in explicit and nm in objs) else val(nm)
     pos_names = order[:npos]
-    pos = [val(nm) for nm in pos_names]
-    kw = {nm: named[nm] for nm in order[npos:] if nm in explicit}
+    pos = [obj(nm) for nm in pos_names]
+    kw = {nm: obj(nm) for nm in order[npos:] if nm in explicit}
     enc = lambda nm, v: None if v is None else ({"ref": REFS[nm]} if nm in REFS else v)
-    wire = {"has_bases": has_bases, "pos": [enc(nm, val(nm)) for nm in pos_names], "kw": [[nm, enc(nm, v)] for nm, v in kw.items()]}
+    wire = {"has_bases": has_bases, "pos": [enc(nm, val(nm)) for nm in pos_names], "kw": [[nm, enc(nm, named[nm])] for nm in kw]}
     return pos, kw, wire
 
 
@@ -240,7 +253,7 @@ def one_case(ctx, case):
 
     def cbg(k, samples_batch, neg_batch, bases_batch=None, *args, **kw):
         cur.clear()
-        cur.update(k=k, pos=samples_batch.numpy().copy(), neg=neg_batch.numpy().copy(),
+        cur.update(k=af.plain(k), pos=samples_batch.numpy().copy(), neg=neg_batch.numpy().copy(),
                    bases=None if bases_batch is None else ["".join(r) for r in np.asarray(bases_batch)],
                    before=[net_params(x, kind) for x in nets], epoch=state["epoch"], run=state["run"])
         with Recorder(dseed + 7919 * len(log["batches"]), dmode) as rec:
@@ -266,7 +279,7 @@ def one_case(ctx, case):
             init = initial_state.detach().to(torch.double).numpy().copy()
         out = orig_gibbs(k, initial_state, overwrite=overwrite)
         if inside:
-            cur.setdefault("gibbs_calls", []).append((k, init, out.detach().to(torch.double).numpy().copy()))
+            cur.setdefault("gibbs_calls", []).append((af.plain(k), init, out.detach().to(torch.double).numpy().copy()))
         return out
 
     st.compute_batch_gradients = cbg
@@ -378,6 +391,7 @@ def one_case(ctx, case):
     if opt_form in ("default", "default-args"):
         npos = min(npos, DOC_ORDER[has_bases].index("optimizer"))  # `optimizer=` stays omitted
     run_bounds, run_info = [], []
+    forms = af.Forms(None if case.get("aseed") is None else case["aseed"] + 1, ctx)   # stream of the fit calls (the state has its own)
     initial = [net_params(x, kind) for x in nets]
     sgd_step_orig = torch.optim.SGD.step
     wire = None
@@ -392,9 +406,17 @@ def one_case(ctx, case):
             nm = dict(named, lr=lr_run, data=torch.tensor(data_run, dtype=torch.double))
             if has_bases:
                 nm["input_bases"] = bases
-            pos_args, kw_args, wire = split_call(has_bases, nm, set(nm), npos)
+            # argument forms (round 5): the integer options as the integer objects callers pass, progbar / time given explicitly as truthy /
+            # falsy objects (a progress bar goes to stderr, the Timer's line to stdout: neither is constrained); values stay in `nm`
+            objs = {key: forms.i(key, nm[key], allowed) for key, allowed in af.FIT_INT.items()}
+            if forms.rng is not None:
+                for key in ("progbar", "time"):
+                    nm[key] = forms.chance(0.2)
+                    objs[key] = forms.f(key, nm[key])
+            pos_args, kw_args, wire = split_call(has_bases, nm, set(nm), npos, objs)
             try:
-                with contextlib.redirect_stderr(io.StringIO()):  # a progress bar (should one appear) must not garble the verdict lines
+                # a progress bar / the Timer's report (should one appear) must not garble the verdict lines
+                with contextlib.redirect_stderr(io.StringIO()), contextlib.redirect_stdout(io.StringIO()):
                     obj.fit(*pos_args, **kw_args)
             except TypeError as e:
                 if e.__traceback__.tb_next is None:  # refused at the call boundary: Python could not bind the documented call form to the signature
@@ -444,7 +466,7 @@ def one_case(ctx, case):
     nontriv = nb >= 2 and case["k"] >= 1
     ctx.count("regime=" + case.get("regime", "ordinary")); ctx.count(f"starting_epoch={start}"); ctx.count(f"fit calls on the object={len(run_bounds)}")
     ctx.case({k: case.get(k) for k in ("kind", "n", "h", "k", "lr", "epochs", "pos_bs", "neg_bs", "seed", "data", "bases", "start", "second_lr", "sched",
-                                       "opt_form", "dmode", "stop", "prior", "npos", "letters", "extra_runs")}, nontrivial=nontriv,
+                                       "opt_form", "dmode", "stop", "prior", "npos", "letters", "extra_runs", "aseed")}, nontrivial=nontriv,
              sample={"kind": kind, "n": n, "h": h, "N": N, "pos_bs": case["pos_bs"], "neg_bs": case["neg_bs"], "k": case["k"], "lr": case["lr"],
                      "epochs": case["epochs"], "batches_seen": len(log["batches"]), "sched": sched, "opt_form": opt_form, "stop": stop, "npos": npos})
     ctx.count(f"kind={kind}"); ctx.count(f"k={case['k']}"); ctx.count("neg==pos" if neg_bs == case["pos_bs"] else "neg!=pos")
@@ -757,7 +779,7 @@ def gen_cases(ctx, thorough):
              "k": rng.choice([0, 1, 2, 3]), "lr": rng.choice([0.5, 0.05, 1e-3]), "epochs": rng.choice([1, 2, 3]), "seed": rng.randrange(1 << 30),
              "start": rng.choice([1, 1, 2, 4]), "second_lr": (rng.choice([0.25, 0.01]) if second else None),
              "second_data": (rows2 if second else None), "sched": sched, "opt_form": opt_form,
-             "dmode": rng.choice(["faithful", "faithful", "coin"]), "dseed": rng.randrange(1 << 30), "letters": letters}
+             "dmode": rng.choice(["faithful", "faithful", "coin"]), "dseed": rng.randrange(1 << 30), "letters": letters, "aseed": af.new_seed(rng)}
         if rng.random() < 0.4:
             positional(c, rng.randint(2, len(DOC_ORDER[kind != "pos"])))
         if rng.random() < 0.25:
@@ -878,7 +900,7 @@ def gen_cases(ctx, thorough):
                 bases.append("".join(rng.choice("XY") if j == jj else "Z" for j in range(n)) if i else "Z" * n)
             out.append({"kind": kind, "n": n, "h": h, "a": a, "am": am, "ph": ph, "data": data, "bases": bases, "pos_bs": 5, "neg_bs": None,
                         "k": 1, "lr": 1e-3, "epochs": 1, "seed": rng.randrange(1 << 30), "start": 1, "second_lr": None, "second_data": None,
-                        "regime": "small-amplitude"})
+                        "regime": "small-amplitude", "aseed": af.new_seed(rng)})
     # one positive batch with more than 256 distinct bases
     import itertools
     n = 6
@@ -888,7 +910,8 @@ def gen_cases(ctx, thorough):
     bases = ["Z" * n] + [s_ for s_ in strings if s_ != "Z" * n][:N - 1]
     out.append({"kind": "cplx", "n": n, "h": 1, "a": 1, "am": qc.rand_rbm_params(rng, n, 1, 0.5), "ph": qc.rand_rbm_params(rng, n, 1, 0.5),
                 "data": [[rng.randint(0, 1) for _ in range(n)] for _ in range(N)], "bases": bases, "pos_bs": N, "neg_bs": 3, "k": 1, "lr": 0.01,
-                "epochs": 1, "seed": rng.randrange(1 << 30), "start": 1, "second_lr": None, "second_data": None, "regime": "many-bases"})
+                "epochs": 1, "seed": rng.randrange(1 << 30), "start": 1, "second_lr": None, "second_data": None, "regime": "many-bases",
+                "aseed": af.new_seed(rng)})
     return out
 
 
